@@ -174,11 +174,26 @@ Definition call1 (cf : ctor) (items : list val) : option val :=
   | CfFrozen => mk_frozen items
   end.
 
-(** [cf( *items )] *)
+(** What [for x in v] yields for the collections of the model ([None]: treated as not iterable). *)
+Definition iter_members (v : val) : option (list val) :=
+  match v with
+  | VL xs | VT _ xs | VS xs | VF xs => Some xs
+  | VD _ kvs => Some (map fst kvs)
+  | _ => None
+  end.
+
+(** [cf( *items )]: a namedtuple class takes its members; the builtin classes (and a plain tuple
+    subclass) take at most one iterable (not reached by [rebuild_collection], which calls them
+    with [cf(items)]). *)
 Definition call_star (cf : ctor) (items : list val) : option val :=
   match cf with
   | CfTuple (TkN n) => if List.length items =? nt_arity E n then Some (VT (TkN n) items) else None
-  | _ => None
+  | _ =>
+      match items with
+      | [] => call1 cf []
+      | [x] => match iter_members x with Some ms => call1 cf ms | None => None end
+      | _ => None
+      end
   end.
 
 Definition is_tuple_class (cf : ctor) : bool :=
